@@ -172,7 +172,8 @@ def _lru_unmerged_task(arg):
 
 
 # ------------------------------------------------------------------ part B
-SOURCES = ["A{{ v }}", "B{{ v }}", "C{% if v %}y{% endif %}", "D"]
+# sources 4 and 5 differ from source 0 only in leading / trailing whitespace: a cache key must tell them apart
+SOURCES = ["A{{ v }}", "B{{ v }}", "C{% if v %}y{% endif %}", "D", " A{{ v }}", "A{{ v }}\n"]
 
 
 def ct_ops():
@@ -285,6 +286,7 @@ COMP_SPECS = [
     ("c18b", "<p>{{ x }}</p>", "2"),  # same source as c18a, different component
     ("c18c", "<i>{{ x }}</i>{% component 'c18a' / %}", "3"),
     ("c18d", "<b>{{ x }}</b>", "4"),
+    ("c18e", "<p>{{ x }}</p>\n", "5"),  # c18a's source plus a trailing newline
 ]
 
 
